@@ -189,9 +189,9 @@ def mk_attr(ctx, a, top):
     if t == "custom":
         return D.CustomAnalysis, dict(cmd=a[1], name=a[2])
     if t == "include":
-        return D.Include, dict(path=a[1])
+        return D.Include, dict(path=mk_path(a[1], a[2] if len(a) > 2 else "str"))
     if t == "lib":
-        return D.Lib, dict(path=a[1], section=a[2])
+        return D.Lib, dict(path=mk_path(a[1], a[3] if len(a) > 3 else "str"), section=a[2])
     if t == "save":
         g = a[1]
         if g[0] == "mode":
@@ -224,6 +224,15 @@ def mk_attr(ctx, a, top):
         v = a[2]
         return D.Options, dict(name=a[1], value=(v[1] if v[0] == "bool" else mk_num(v)))
     raise ValueError(a)
+
+
+def mk_path(w, form):
+    """what the designer writes as the path of an Include / Lib: the text, or a pathlib.Path of it"""
+    if form == "str":
+        return w
+    if form == "path":
+        return Path(w)
+    raise ValueError(form)
 
 
 def default_analysis(kind):
@@ -602,6 +611,13 @@ def do_fpath(n):
     return dict(read=[rnm, rne, x.prefix.value], dec=obs, out=r)
 
 
+def do_path(w):
+    """oracle for the text of a path: str(pathlib.PurePosixPath(w)), str(pathlib.Path(w)), os.path.normpath(w)"""
+    import posixpath
+    from pathlib import PurePosixPath
+    return [str(PurePosixPath(w)), str(Path(w)), posixpath.normpath(w)]
+
+
 _AUTO_PREFIX = None
 
 
@@ -626,7 +642,7 @@ def do_autoname(n):
 
 
 def handler(p):
-    f = dict(case=do_case, near=do_near, autoname=do_autoname, fpath=do_fpath)[p["kind"]]
+    f = dict(case=do_case, near=do_near, autoname=do_autoname, fpath=do_fpath, path=do_path)[p["kind"]]
     return dict(results=[f(j) for j in p["jobs"]])
 
 
